@@ -77,8 +77,20 @@ pub fn principals(m: &Model) -> Vec<Principal> {
             v.push(bearer(&format!("key:{}", ROLE_TAG[role]), PClass::Bound, &k));
         }
     }
-    for (i, k) in m.revoked().iter().take(3).enumerate() {
-        v.push(bearer(&format!("revoked:{i}"), PClass::Revoked, k));
+    // the oldest revoked key and the three most recently revoked ones (the last revocation is the
+    // one a lazy persistence path is most likely to lose - seeded change C14-1)
+    let rv = m.revoked();
+    let mut picked: Vec<usize> = vec![];
+    if !rv.is_empty() {
+        picked.push(0);
+    }
+    for i in rv.len().saturating_sub(3)..rv.len() {
+        if !picked.contains(&i) {
+            picked.push(i);
+        }
+    }
+    for i in picked {
+        v.push(bearer(&format!("revoked:{i}"), PClass::Revoked, &rv[i]));
     }
     if let Some(k) = m.db(RA).and_then(|d| d.key.clone()) {
         v.push(bearer("key:a+space", PClass::TrailingSpace, &format!("{k} ")));
